@@ -14,6 +14,7 @@ mod apis4;
 mod apis5;
 mod apis6;
 mod apis7;
+mod apis8;
 
 fn main() {
     std::panic::set_hook(Box::new(|_| {}));
